@@ -8,13 +8,13 @@ Line protocol for Model/Seq.lean (property C10).
      -> ok ((<none|err-name> <seq>)*) (x<write>*)
   seq.client <true|false connected> <init> <login request pkt> (x<reply frame>*) (<op>*)
      -> ok <none|err-name> <true|false accepted> <seq after login> ((<none|err-name> <seq>)*) (x<write>*)
-  seq.fix    (<op>*)
+  seq.fix    <unchanged|repaired> (<op>*)          variant of FixSession.send_msg (see Model/Seq.lean)
         op = (login <seq> <valid> <encodable>) | (send <valid> <encodable>) | (hb <valid> <encodable>)
      -> ok ((<rej|type|enc|w n> <next|none>)*) (<tag 34 of the frames written>*)
   witness C10 -> the history of Witness/C10.lean in seq.fix syntax
 -/
 namespace NasdaqModel.Driver.SeqD
-open NasdaqModel Sexp Soup Seq
+open NasdaqModel Sexp Soup SeqNum
 
 def roleOf : Sexp → Option Role
   | .atom "client" => some .client
@@ -68,11 +68,6 @@ def fixOpStr : FixOp → String
   | .send m => s!"(send {m.bodyValid} {m.encodable})"
   | .heartbeat m => s!"(hb {m.bodyValid} {m.encodable})"
 
-/-- the history `Witness/C10.lean` is about (kept here so that the driver can print it; the witness theorem
-    refers to this very definition) -/
-def witnessGap : List FixOp :=
-  [.login 5 ⟨true, true⟩, .send ⟨true, false⟩, .send ⟨true, true⟩]
-
 def handle (op : String) (args : List Sexp) : Option String :=
   match op, args with
   | "seq.soup", [r, c, i, .list ops] => do
@@ -86,11 +81,13 @@ def handle (op : String) (args : List Sexp) : Option String :=
       let ops ← ops.mapM soupOpOf
       let (s1, e, acc) := clientLogin s req replies
       some s!"ok {errStr e} {acc} {s1.seq} {traceStr (soupTrace s1 ops)} {writesStr (soupRun s1 ops).written}"
-  | "seq.fix", [.list ops] => do
+  | "seq.fix", [v, .list ops] => do
+      let repaired ← (match v with | .atom "unchanged" => some false | .atom "repaired" => some true | _ => none)
       let ops ← ops.mapM fixOpOf
-      let t := fixTrace fixInit ops
+      let t := if repaired then fixTraceR fixInit ops else fixTrace fixInit ops
+      let fin := if repaired then fixRunR fixInit ops else fixRun fixInit ops
       let ts := "(" ++ " ".intercalate (t.map fun (o, n) => s!"({fixOutStr o} {optIntStr n})") ++ ")"
-      let fs := "(" ++ " ".intercalate ((fixRun fixInit ops).frames.map toString) ++ ")"
+      let fs := "(" ++ " ".intercalate (fin.frames.map toString) ++ ")"
       some s!"ok {ts} {fs}"
   | "witness", [.atom "C10"] =>
       some ("(" ++ " ".intercalate (witnessGap.map fixOpStr) ++ ")")
